@@ -1,0 +1,10 @@
+//go:build verif
+
+package parser
+
+// VerifC17bState returns the fields of a Parser (read-only accessor for the
+// C17B correspondence check: the generated model must agree with them after
+// every call).  buf is the parser's own buffer, not a copy.
+func VerifC17bState(p *Parser) (from int64, pos, used, lastRead int, buf []byte) {
+	return p.from, p.pos, p.used, p.lastRead, p.buf
+}
